@@ -10,7 +10,8 @@ vars == <<T, v>>
 TColor == TEnumOf("Color", << [n |-> "RED", v |-> Atom("pystr", "red")],
                               [n |-> "BLUE", v |-> Atom("pystr", "blue")] >>)
 ScalarT == {TFloat, TInt, TBool, TStr}
-LeafT == ScalarT \cup {TColor, TArray, TXGrid, TDict}
+ArrayT == {TArrayAs(a) : a \in ArrayAnn}
+LeafT == ScalarT \cup {TColor, TXGrid, TDict} \cup ArrayT
 
 F(a) == Atom("pyfloat", a)
 LeafVals(X) ==
@@ -19,7 +20,7 @@ LeafVals(X) ==
     [] X = TBool -> {Bool(TRUE), Bool(FALSE), Atom("npbool", "True")}
     [] X = TStr -> {Atom("pystr", "s1")}
     [] X = TColor -> {EnumV("Color", "RED", Atom("pystr", "red")), EnumV("Color", "BLUE", Atom("pystr", "blue"))}
-    [] X = TArray -> {ArrayV(<<>>), ArrayV(<<F("f1"), F("f2")>>),
+    [] X \in ArrayT -> {ArrayV(<<>>), ArrayV(<<F("f1"), F("f2")>>),
                       ArrayV(<<ArrayV(<<F("f1"), F("f2")>>), ArrayV(<<F("f3"), F("f1")>>)>>),
                       ArrayV(<<Atom("pyint", "i1"), Atom("pyint", "i2")>>)}
     [] X = TXGrid -> {XGridV("log", <<F("x1"), F("x2"), F("x3")>>), XGridV("lin", <<F("x1"), F("x2"), F("x3")>>)}
@@ -65,5 +66,5 @@ InvEnumByName == \A i \in DOMAIN TColor.en :
                    /\ Load(TColor, Atom("pystr", TColor.en[i].n)) = EnumV("Color", TColor.en[i].n, TColor.en[i].v)
                    /\ Load(TColor, TColor.en[i].v) = EnumV("Color", TColor.en[i].n, TColor.en[i].v)
 (* the dispatcher carries the declared flag whatever flag the card's grid object has *)
-InvInterp == \A g \in {"log", "lin"}, d \in {"log", "lin"} : DispatcherFlag(g, d) = d
+InvInterp == v = v /\ \A g \in {"log", "lin"}, d \in {"log", "lin"} : DispatcherFlag(g, d) = d
 =============================================================================
